@@ -75,6 +75,12 @@ def special_cases():
         out.append({"meta": dict(fx, container_constructor=nm), "services": {"s": dict(S, getter="G", must_getter=True)}, "parameters": {"p": "x%p2%", "p2": 1}})
         out.append({"meta": dict(fx), "services": {"s": dict(S, getter=nm)}})
     out.append({"meta": {"pkg": "main", "container_constructor": "main"}, "services": {"s": dict(S)}})
+    # todo services carrying what the validator would refuse on a real one (it skips todo services): a getter equal to another
+    # service's getter / must-getter, a runtime method name, a helper name, a type and a value nobody can render
+    for g in ["MustGetDB", "GetDB", "Root", "Get", "GetParam", "Container"] + template_helper_methods()[:3]:
+        out.append({"meta": dict(fx), "services": {"db": {"constructor": "fx.NewA", "type": "*fx.Obj", "getter": "GetDB", "must_getter": True},
+                                                   "t": {"todo": True, "getter": g, "type": "*fx.Obj"}}})
+        out.append({"meta": dict(fx, default_must_getter=True), "services": {"t": {"todo": True, "getter": g, "must_getter": True}, "u": {"todo": True, "getter": g}}})
     return out
 
 
